@@ -365,6 +365,8 @@ pub fn corr(run: &mut Run) {
     }
     run.extra.insert("programs".into(), serde_json::json!(done));
     discipline_stream(run);
+    leak_stream(run);
+    perm_leak_stream(run);
 }
 
 // ------------------------------------------------------------------------------------------------
@@ -581,7 +583,10 @@ fn discipline_with(ir: &[IrNode], ins: &[IOStatus], p: usize, recipient: bool) -
 }
 
 /// the compiled graph as `List CCV.Mask.Node`, classified for observer p
-fn export_mask(ir: &[IrNode], ins: &[IOStatus], p: usize) -> Option<String> {
+fn export_mask(ir: &[IrNode], ins: &[IOStatus], p: usize) -> Option<(String, String, String)> {
+    let mut ty_tags: Vec<String> = vec![];
+    let mut tys: Vec<usize> = vec![];
+    let mut vty: Vec<Option<usize>> = vec![];
     let c = cones(ir, ins, p)?;
     let holders = ir_key_holders(ir);
     let mut s = String::new();
@@ -589,6 +594,24 @@ fn export_mask(ir: &[IrNode], ins: &[IOStatus], p: usize) -> Option<String> {
     let mut known_id = 0;
     let mut tags: Vec<String> = vec![];
     for (i, n) in ir.iter().enumerate() {
+        // type tag of the node
+        let tkey = format!("{:?}", n.ty);
+        let tt = match ty_tags.iter().position(|t| *t == tkey) {
+            Some(x) => x,
+            None => {
+                ty_tags.push(tkey);
+                ty_tags.len() - 1
+            }
+        };
+        tys.push(tt);
+        if let Some(v) = c.own[i] {
+            if vty.len() <= v {
+                vty.resize(v + 1, None);
+            }
+            if vty[v].is_none() {
+                vty[v] = Some(tt);
+            }
+        }
         let same = |d: u64| ir[d as usize].ty == n.ty;
         let mut deps: Vec<u64> = n.deps.clone();
         let kind = match &n.op {
@@ -618,7 +641,8 @@ fn export_mask(ir: &[IrNode], ins: &[IOStatus], p: usize) -> Option<String> {
             Operation::Add if same(n.deps[0]) && same(n.deps[1]) => ".add".to_owned(),
             Operation::Subtract if same(n.deps[0]) && same(n.deps[1]) => ".sub".to_owned(),
             op => {
-                let key = format!("{:?}", op);
+                // the tag identifies operation AND result type (one tag, one type)
+                let key = format!("{:?} : {:?}", op, n.ty);
                 let tag = match tags.iter().position(|t| *t == key) {
                     Some(x) => x,
                     None => {
@@ -631,14 +655,16 @@ fn export_mask(ir: &[IrNode], ins: &[IOStatus], p: usize) -> Option<String> {
         };
         s += &format!("  ⟨{}, [{}]⟩{}\n", kind, deps.iter().map(|d| d.to_string()).collect::<Vec<_>>().join(", "), if i + 1 == ir.len() { "" } else { "," });
     }
-    Some(s)
+    let tys_s = tys.iter().map(|t| t.to_string()).collect::<Vec<_>>().join(", ");
+    let vty_s = vty.iter().map(|t| t.unwrap_or(0).to_string()).collect::<Vec<_>>().join(", ");
+    Some((s, tys_s, vty_s))
 }
 
 pub fn discipline_stream(run: &mut Run) {
     let mut rng = run.rng("discipline");
     let n = run.tier.scale(120, 1500);
     for it in 0..n {
-        let fam = match catch(|| if it % 3 == 0 { tensor_family(&mut rng, 4) } else { arith_family(&mut rng, 6) }) {
+        let fam = match catch(|| match it % 6 { 0 | 3 => tensor_family(&mut rng, 4), 5 => truncate_family(&mut rng), _ => arith_family(&mut rng, 6) }) {
             Ok(Ok(f)) => f,
             _ => continue,
         };
@@ -674,7 +700,7 @@ pub fn discipline_stream(run: &mut Run) {
                     run.count_n("discipline:messages-pivoted", cert.pivoted.len() as u64);
                 }
                 Err(why) => {
-                    if fam.name == "arith" || fam.ops.iter().all(|o| ["Add", "Subtract", "Multiply", "Sum", "Get", "GetSlice", "Reshape", "PermuteAxes", "Stack", "Concatenate", "CumSum", "CreateTuple/TupleGet", "Matmul", "Dot", "Gemm"].contains(&o.as_str())) {
+                    if fam.name == "arith" || fam.name == "truncate" || fam.ops.iter().all(|o| ["Add", "Subtract", "Multiply", "Sum", "Get", "GetSlice", "Reshape", "PermuteAxes", "Stack", "Concatenate", "CumSum", "CreateTuple/TupleGet", "Matmul", "Dot", "Gemm"].contains(&o.as_str())) {
                         run.oracle_fail(&format!("C03:mask-discipline:{}", fam.name), format!("{} : observer party {} (not an output party): {}", descr, p, why));
                     } else {
                         run.count(&format!("discipline:unknown:{}:{}", fam.name, why.split(':').next().unwrap_or("").chars().take(24).collect::<String>()));
@@ -686,6 +712,393 @@ pub fn discipline_stream(run: &mut Run) {
 }
 
 
+// ------------------------------------------------------------------------------------------------
+// Search for a concrete leak (failing input) on arithmetic graphs: a ±1 combination of at most four
+// entries of a NON-RECIPIENT observer's view (messages delivered to it, PRF outputs whose key it holds,
+// its own inputs) whose value does not depend on the tape but does depend on the other parties' secrets.
+// Such a combination is a deterministic function of the view that distinguishes two secret vectors:
+// a genuine violation (sound: nothing is reported unless the values really differ).
+// ------------------------------------------------------------------------------------------------
+
+/// first element of every value observer p sees or can compute from what it sees (messages delivered to
+/// it, PRF outputs whose key it holds, its own and the public inputs, constants, and every operation on
+/// such values), grouped by type: (type, [(node, value)])
+fn view_entries(ir: &[IrNode], vals: &[Value], ins: &[IOStatus], p: usize) -> Vec<(Type, Vec<(usize, u128)>)> {
+    let holders = ir_key_holders(ir);
+    let mut groups: Vec<(Type, Vec<(usize, u128)>)> = vec![];
+    let mut input_id = 0;
+    let mut known: Vec<bool> = vec![];
+    for (i, n) in ir.iter().enumerate() {
+        let mut inview = n.sends.iter().any(|(_, r)| *r as usize == p);
+        match &n.op {
+            Operation::Input(_) => {
+                let st = &ins[input_id];
+                input_id += 1;
+                inview |= matches!(st, IOStatus::Public) || matches!(st, IOStatus::Party(o) if *o as usize == p);
+            }
+            Operation::PRF(_, _) | Operation::PermutationFromPRF(_, _) => {
+                if let Some(k) = ir_key_of(ir, n.deps[0] as usize) {
+                    inview |= holders.get(&k).map(|x| x[p]).unwrap_or(false);
+                }
+            }
+            Operation::Random(_) => {}
+            _ => {
+                // computable from known values (constants have no dependencies)
+                inview |= n.deps.iter().all(|d| known[*d as usize]);
+            }
+        }
+        known.push(inview);
+        if !inview {
+            continue;
+        }
+        let (st, at) = match &n.ty {
+            Type::Scalar(st) => (*st, array_type(vec![1], *st)),
+            Type::Array(_, st) => (*st, n.ty.clone()),
+            _ => continue,
+        };
+        if scalar_size_in_bits(st) < 32 {
+            continue;
+        }
+        let x = match vals[i].to_flattened_array_u128(at) {
+            Ok(a) if !a.is_empty() => a[0],
+            _ => continue,
+        };
+        match groups.iter_mut().find(|(t, _)| *t == n.ty) {
+            Some((_, g)) => g.push((i, x)),
+            None => groups.push((n.ty.clone(), vec![(i, x)])),
+        }
+    }
+    groups
+}
+
+pub fn leak_stream(run: &mut Run) {
+    let mut rng = run.rng("leak-search");
+    let n = run.tier.scale(60, 600);
+    const TAPES: usize = 4;
+    for it in 0..n {
+        let fam = match catch(|| match it % 3 { 0 => truncate_family(&mut rng), 1 => tensor_family(&mut rng, 3), _ => arith_family(&mut rng, 5) }) {
+            Ok(Ok(f)) => f,
+            _ => continue,
+        };
+        let ins: Vec<IOStatus> = fam.in_types.iter().map(|_| match rng.below(5) { 0 => IOStatus::Public, x => IOStatus::Party(x % 3) }).collect();
+        let outs = gen_outputs(&mut rng);
+        let mode = rng.below(3) as u8;
+        let cc = match catch(|| compile(&fam.ctx, &ins, &outs, mode)) {
+            Ok(Ok(c)) => c,
+            _ => continue,
+        };
+        let (ir, _out) = match cc.get_main_graph().and_then(|g| ir_of_graph(&g)) {
+            Ok(x) => x,
+            _ => continue,
+        };
+        if ir.len() > 400 {
+            continue;
+        }
+        let cfg = config_name(&ins, &outs, mode);
+        for p in 0..3usize {
+            if outs.iter().any(|o| *o == IOStatus::Party(p as u64)) {
+                continue;
+            }
+            let hidden: Vec<usize> = (0..ins.len()).filter(|i| matches!(&ins[*i], IOStatus::Party(o) if *o as usize != p)).collect();
+            if hidden.is_empty() {
+                continue;
+            }
+            // two secret vectors that differ exactly in the inputs hidden from p
+            let alt = gen_inputs_for(&mut rng, &fam.in_types);
+            let sec_a = fam.inputs.clone();
+            let mut sec_b = fam.inputs.clone();
+            for i in &hidden {
+                sec_b[*i] = alt[*i].clone();
+            }
+            if sec_a == sec_b {
+                continue;
+            }
+            let seeds: Vec<[u8; 16]> = (0..TAPES).map(|_| rng.seed16()).collect();
+            let mut views: Vec<Vec<Vec<(Type, Vec<(usize, u128)>)>>> = vec![];
+            let mut ok = true;
+            for sec in [&sec_a, &sec_b] {
+                let mut per_tape = vec![];
+                for seed in &seeds {
+                    let r = catch(|| -> ciphercore_base::errors::Result<Vec<Value>> {
+                        let mut prng = PRNG::new(Some(*seed))?;
+                        let gin = global_inputs(&ins, &fam.in_types, sec, &mut prng)?;
+                        global_run(&cc, gin, *seed)
+                    });
+                    match r {
+                        Ok(Ok(vals)) => per_tape.push(view_entries(&ir, &vals, &ins, p)),
+                        _ => {
+                            ok = false;
+                            break;
+                        }
+                    }
+                }
+                views.push(per_tape);
+            }
+            if !ok {
+                continue;
+            }
+            let descr = format!("leak-search {} [{}] {} observer {} (not a recipient)", fam.name, fam.descr, cfg, p);
+            run.oracle_case(&descr, true);
+            run.count(&format!("leak-search:{}", fam.name));
+            let n_groups = views[0][0].len();
+            let mut found: Option<String> = None;
+            'groups: for gi in 0..n_groups {
+                let ty = views[0][0][gi].0.clone();
+                let bits = match &ty { Type::Scalar(st) | Type::Array(_, st) => scalar_size_in_bits(*st), _ => 64 };
+                let mask: u128 = if bits >= 128 { u128::MAX } else { (1u128 << bits) - 1 };
+                // distinct entries only (copies made by NOP / reshaping add nothing), latest first, at most 48
+                let all = views[0][0][gi].1.len();
+                let sig_of = |j: usize| -> Vec<u128> { (0..2).flat_map(|s| (0..TAPES).map(move |t| (s, t))).map(|(s, t)| views[s][t][gi].1[j].1).collect() };
+                let mut seen: Vec<Vec<u128>> = vec![];
+                let mut sel: Vec<usize> = vec![];
+                for j in (0..all).rev() {
+                    let sg = sig_of(j);
+                    if sg.iter().all(|x| *x == sg[0]) && sg[0] == 0 {
+                        continue;
+                    }
+                    if !seen.contains(&sg) {
+                        seen.push(sg);
+                        sel.push(j);
+                    }
+                    if sel.len() == 48 {
+                        break;
+                    }
+                }
+                let m = sel.len();
+                run.count_n("leak-search:view-entries", m as u64);
+                let val = |s: usize, t: usize, j: usize| views[s][t][gi].1[sel[j]].1;
+                // combination: indices (ascending) with signs
+                let mut idx: Vec<usize> = vec![];
+                fn rec(depth: usize, start: usize, m: usize, idx: &mut Vec<usize>, f: &mut dyn FnMut(&[usize]) -> bool) -> bool {
+                    if !idx.is_empty() && f(idx) {
+                        return true;
+                    }
+                    if depth == 4 {
+                        return false;
+                    }
+                    for j in start..m {
+                        idx.push(j);
+                        if rec(depth + 1, j + 1, m, idx, f) {
+                            return true;
+                        }
+                        idx.pop();
+                    }
+                    false
+                }
+                let mut hit: Option<(Vec<usize>, u32, u128, u128)> = None;
+                let mut test = |ix: &[usize]| -> bool {
+                    for signs in 0..(1u32 << (ix.len() - 1)) {
+                        let comb = |s: usize, t: usize| -> u128 {
+                            let mut acc: u128 = 0;
+                            for (k, j) in ix.iter().enumerate() {
+                                let neg = k > 0 && (signs >> (k - 1)) & 1 == 1;
+                                let v = val(s, t, *j);
+                                acc = if neg { acc.wrapping_sub(v) } else { acc.wrapping_add(v) } & mask;
+                            }
+                            acc
+                        };
+                        let a0 = comb(0, 0);
+                        if (1..TAPES).all(|t| comb(0, t) == a0) {
+                            // tape-invariant under the first secret vector: compare with the second
+                            let b0 = comb(1, 0);
+                            if b0 != a0 || (1..TAPES).any(|t| comb(1, t) != b0) {
+                                hit = Some((ix.to_vec(), signs, a0, b0));
+                                return true;
+                            }
+                        }
+                    }
+                    false
+                };
+                if rec(0, 0, m, &mut idx, &mut test) {
+                    let (ix, signs, a0, b0) = hit.unwrap();
+                    let terms: Vec<String> = ix.iter().enumerate().map(|(k, j)| format!("{}node{}", if k > 0 && (signs >> (k - 1)) & 1 == 1 { "-" } else { "+" }, views[0][0][gi].1[sel[*j]].0)).collect();
+                    found = Some(format!("the combination {} of view entries (element 0, type {:?}) does not depend on the tape ({} tapes) but equals {} for inputs {:?} and {} for inputs {:?}", terms.join(" "), ty, TAPES, a0, sec_a.iter().map(crate::vals::bytes_of).collect::<Vec<_>>(), b0, sec_b.iter().map(crate::vals::bytes_of).collect::<Vec<_>>()));
+                    break 'groups;
+                }
+            }
+            if let Some(why) = found {
+                run.oracle_fail(&format!("C03:leak:{}:{}", fam.name, fam.ops.first().cloned().unwrap_or_default()), format!("{} : {}", descr, why));
+            }
+        }
+    }
+}
+
+/// Search for a concrete leak in the sorting protocol: the parties open shuffled permutations σ∘π; each
+/// opening must use a fresh π.  For a NON-RECIPIENT observer, take every permutation-valued array it
+/// sees or can compute and test, for every ordered pair (a, b), whether a∘b⁻¹ or a⁻¹∘b is the same for
+/// all tapes but different for two different key columns (the signature of a reused shuffle).
+pub fn perm_leak_stream(run: &mut Run) {
+    use ciphercore_base::graphs::util::simple_context;
+    let mut rng = run.rng("perm-leak-search");
+    let n = run.tier.scale(4, 24);
+    const TAPES: usize = 6;
+    for it in 0..n {
+        let rows = 5 + rng.below(2);
+        let kb = 5 + rng.below(3);
+        let owner = rng.below(3);
+        let two_cols = it % 2 == 1;
+        let ctx = match catch(|| simple_context(|g| {
+            let k = g.input(array_type(vec![rows, kb], BIT))?;
+            if two_cols {
+                let v = g.input(array_type(vec![rows], UINT64))?;
+                g.create_named_tuple(vec![("v".to_owned(), v), ("k".to_owned(), k)])?.sort("k".to_owned())
+            } else {
+                g.create_named_tuple(vec![("k".to_owned(), k)])?.sort("k".to_owned())
+            }
+        })) {
+            Ok(Ok(c)) => c,
+            _ => continue,
+        };
+        let in_types: Vec<Type> = if two_cols { vec![array_type(vec![rows, kb], BIT), array_type(vec![rows], UINT64)] } else { vec![array_type(vec![rows, kb], BIT)] };
+        let ins: Vec<IOStatus> = in_types.iter().map(|_| IOStatus::Party(owner)).collect();
+        let outs = vec![IOStatus::Party(owner)];
+        let mode = rng.below(3) as u8;
+        let cc = match catch(|| compile(&ctx, &ins, &outs, mode)) {
+            Ok(Ok(c)) => c,
+            _ => continue,
+        };
+        let (ir, _out) = match cc.get_main_graph().and_then(|g| ir_of_graph(&g)) {
+            Ok(x) => x,
+            _ => continue,
+        };
+        let sec_a = gen_inputs_for(&mut rng, &in_types);
+        let sec_b = gen_inputs_for(&mut rng, &in_types);
+        if sec_a[0] == sec_b[0] {
+            continue;
+        }
+        let seeds: Vec<[u8; 16]> = (0..TAPES).map(|_| rng.seed16()).collect();
+        let mut all_vals: Vec<Vec<Vec<Value>>> = vec![];
+        let mut ok = true;
+        for sec in [&sec_a, &sec_b] {
+            let mut per_tape = vec![];
+            for seed in &seeds {
+                let r = catch(|| -> ciphercore_base::errors::Result<Vec<Value>> {
+                    let mut prng = PRNG::new(Some(*seed))?;
+                    let gin = global_inputs(&ins, &in_types, sec, &mut prng)?;
+                    global_run(&cc, gin, *seed)
+                });
+                match r {
+                    Ok(Ok(vals)) => per_tape.push(vals),
+                    _ => {
+                        ok = false;
+                        break;
+                    }
+                }
+            }
+            all_vals.push(per_tape);
+        }
+        if !ok {
+            continue;
+        }
+        let cfg = config_name(&ins, &outs, mode);
+        for p in 0..3usize {
+            if p as u64 == owner {
+                continue;
+            }
+            let descr = format!("perm-leak-search sort rows={} keybits={} columns={} {} ({} nodes) observer {} (not a recipient)", rows, kb, if two_cols { 2 } else { 1 }, cfg, ir.len(), p);
+            run.oracle_case(&descr, true);
+            // nodes the observer sees or can compute
+            let holders = ir_key_holders(&ir);
+            let mut known: Vec<bool> = vec![];
+            let mut input_id = 0;
+            let mut cands: Vec<usize> = vec![];
+            for (i, nd) in ir.iter().enumerate() {
+                let mut inview = nd.sends.iter().any(|(_, r)| *r as usize == p);
+                match &nd.op {
+                    Operation::Input(_) => {
+                        let st = &ins[input_id];
+                        input_id += 1;
+                        inview |= matches!(st, IOStatus::Public) || matches!(st, IOStatus::Party(o) if *o as usize == p);
+                    }
+                    Operation::PRF(_, _) | Operation::PermutationFromPRF(_, _) => {
+                        if let Some(k) = ir_key_of(&ir, nd.deps[0] as usize) {
+                            inview |= holders.get(&k).map(|x| x[p]).unwrap_or(false);
+                        }
+                    }
+                    Operation::Random(_) => {}
+                    _ => inview |= nd.deps.iter().all(|d| known[*d as usize]),
+                }
+                known.push(inview);
+                if inview && matches!(&nd.ty, Type::Array(s, st) if s.len() == 1 && s[0] == rows && !st.is_signed() && scalar_size_in_bits(*st) >= 8) {
+                    cands.push(i);
+                }
+            }
+            // permutation-valued in every run
+            let as_perm = |s: usize, t: usize, i: usize| -> Option<Vec<usize>> {
+                let a = all_vals[s][t][i].to_flattened_array_u128(ir[i].ty.clone()).ok()?;
+                let mut seen = vec![false; rows as usize];
+                for x in &a {
+                    if *x >= rows as u128 || seen[*x as usize] {
+                        return None;
+                    }
+                    seen[*x as usize] = true;
+                }
+                Some(a.into_iter().map(|x| x as usize).collect())
+            };
+            let mut perms: Vec<(usize, Vec<Vec<Vec<usize>>>)> = vec![];
+            for i in cands.iter().rev() {
+                let mut per: Vec<Vec<Vec<usize>>> = vec![];
+                let mut good = true;
+                for s in 0..2 {
+                    let mut row = vec![];
+                    for t in 0..TAPES {
+                        match as_perm(s, t, *i) {
+                            Some(pm) => row.push(pm),
+                            None => {
+                                good = false;
+                                break;
+                            }
+                        }
+                    }
+                    if !good {
+                        break;
+                    }
+                    per.push(row);
+                }
+                if good && !perms.iter().any(|(_, q)| *q == per) {
+                    perms.push((*i, per));
+                }
+                if perms.len() == 64 {
+                    break;
+                }
+            }
+            run.count_n("perm-leak-search:permutation-valued-entries", perms.len() as u64);
+            let inv = |a: &Vec<usize>| -> Vec<usize> {
+                let mut r = vec![0; a.len()];
+                for (i, x) in a.iter().enumerate() {
+                    r[*x] = i;
+                }
+                r
+            };
+            let comp = |a: &Vec<usize>, b: &Vec<usize>| -> Vec<usize> { b.iter().map(|x| a[*x]).collect() }; // a∘b
+            let mut found: Option<String> = None;
+            'pairs: for (ia, pa) in &perms {
+                for (ib, pb) in &perms {
+                    if ia == ib {
+                        continue;
+                    }
+                    for form in 0..2 {
+                        let f = |s: usize, t: usize| -> Vec<usize> {
+                            if form == 0 { comp(&pa[s][t], &inv(&pb[s][t])) } else { comp(&inv(&pa[s][t]), &pb[s][t]) }
+                        };
+                        let a0 = f(0, 0);
+                        if (1..TAPES).all(|t| f(0, t) == a0) {
+                            let b0 = f(1, 0);
+                            if b0 != a0 || (1..TAPES).any(|t| f(1, t) != b0) {
+                                found = Some(format!("{} of the permutations at nodes {} and {} does not depend on the tape ({} tapes) but equals {:?} for key column {:?} and {:?} for key column {:?}", if form == 0 { "a∘b⁻¹" } else { "a⁻¹∘b" }, ia, ib, TAPES, a0, crate::vals::bytes_of(&sec_a[0]), b0, crate::vals::bytes_of(&sec_b[0])));
+                                break 'pairs;
+                            }
+                        }
+                    }
+                }
+            }
+            if let Some(why) = found {
+                run.oracle_fail("C03:leak:sort:opened-permutations", format!("{} : {}", descr, why));
+            }
+        }
+    }
+}
+
 /// (T) export classified graphs + certificates of a fixed corpus; Lean decides `discOk ∧ compOk`.
 pub fn gen(run: &mut Run, out_dir: &str) {
     use std::fmt::Write as _;
@@ -693,7 +1106,7 @@ pub fn gen(run: &mut Run, out_dir: &str) {
     let n_graphs = run.tier.scale(30, 120);
     let max_nodes = run.tier.scale(160, 400);
     let chunk = 5;
-    let header = "import CCV.Model.MaskRev\nset_option maxRecDepth 1000000\nnamespace CCV.Generated.C03\nopen CCV.Mask\n\n";
+    let header = "import CCV.Model.MaskRev\nimport CCV.Model.MaskTy\nset_option maxRecDepth 1000000\nnamespace CCV.Generated.C03\nopen CCV.Mask\n\n";
     let mut files: Vec<String> = vec![];
     let mut cur = String::new();
     let mut in_cur = 0;
@@ -702,7 +1115,7 @@ pub fn gen(run: &mut Run, out_dir: &str) {
     let mut attempts = 0;
     while k < n_graphs && attempts < n_graphs * 40 {
         attempts += 1;
-        let fam = match catch(|| if attempts % 4 == 0 { tensor_family(&mut rng, 3) } else { arith_family(&mut rng, 5) }) {
+        let fam = match catch(|| match attempts % 6 { 0 => tensor_family(&mut rng, 3), 1 | 2 => truncate_family(&mut rng), _ => arith_family(&mut rng, 5) }) {
             Ok(Ok(f)) => f,
             _ => continue,
         };
@@ -729,7 +1142,7 @@ pub fn gen(run: &mut Run, out_dir: &str) {
                 continue;
             }
             // only families for which the discipline is known to be provable are in the corpus
-            if fam.name != "arith" {
+            if fam.name != "arith" && fam.name != "truncate" {
                 if recipient || discipline_for(&ir, &ins, p).is_err() {
                     continue;
                 }
@@ -740,7 +1153,7 @@ pub fn gen(run: &mut Run, out_dir: &str) {
                 // obligation fails visibly
                 Err(_) => Certificate { pivoted: vec![], computable: vec![], reveals: vec![] },
             };
-            let nodes = match export_mask(&ir, &ins, p) {
+            let (nodes, tys_s, vty_s) = match export_mask(&ir, &ins, p) {
                 Some(s) => s,
                 None => continue,
             };
@@ -751,14 +1164,16 @@ pub fn gen(run: &mut Run, out_dir: &str) {
             let cfg = config_name(&ins, &outs, mode);
             writeln!(cur, "/-- {} [{}] {} ; observer party {} ({}) ; {} nodes ; messages delivered at nodes {:?} -/", fam.name, fam.descr.replace("-/", ""), cfg, p, if recipient { "output recipient" } else { "not a recipient" }, ir.len(), delivered).unwrap();
             writeln!(cur, "def {} : List Node := [\n{}]", name, nodes).unwrap();
+            writeln!(cur, "def {}_tys : List Nat := [{}]", name, tys_s).unwrap();
+            writeln!(cur, "def {}_vty : List Nat := [{}]", name, vty_s).unwrap();
             writeln!(cur, "def {}_cert : Cert := [{}]", name, cert.pivoted.iter().map(|(m, v)| format!("({}, {})", m, v)).collect::<Vec<_>>().join(", ")).unwrap();
             writeln!(cur, "def {}_comp : List Nat := [{}]", name, cert.computable.iter().map(|m| m.to_string()).collect::<Vec<_>>().join(", ")).unwrap();
             writeln!(cur, "def {}_delivered : List Nat := [{}]", name, delivered.iter().map(|m| m.to_string()).collect::<Vec<_>>().join(", ")).unwrap();
             writeln!(cur, "def {}_revs : List Nat := [{}]", name, cert.reveals.iter().map(|m| m.to_string()).collect::<Vec<_>>().join(", ")).unwrap();
             if recipient {
-                writeln!(cur, "theorem {}_ok : (discOk {} {}_cert && compOk {} {}_comp && revOk {} ({}_cert.map (·.1) ++ {}_comp) {} {}_revs && {}_delivered.all (fun m => {}_comp.contains m || {}_revs.contains m || {}_cert.any (fun c => c.1 == m))) = true := by decide +kernel\n", name, name, name, name, name, name, name, name, _out, name, name, name, name, name).unwrap();
+                writeln!(cur, "theorem {}_ok : (discOk {} {}_cert && compOk {} {}_comp && tyOk {} {}_tys {}_vty {}_cert && revOk {} ({}_cert.map (·.1) ++ {}_comp) {} {}_revs && {}_delivered.all (fun m => {}_comp.contains m || {}_revs.contains m || {}_cert.any (fun c => c.1 == m))) = true := by decide +kernel\n", name, name, name, name, name, name, name, name, name, name, name, name, _out, name, name, name, name, name).unwrap();
             } else {
-                writeln!(cur, "theorem {}_ok : (discOk {} {}_cert && compOk {} {}_comp && {}_delivered.all (fun m => {}_comp.contains m || {}_cert.any (fun c => c.1 == m))) = true := by decide +kernel\n", name, name, name, name, name, name, name, name).unwrap();
+                writeln!(cur, "theorem {}_ok : (discOk {} {}_cert && compOk {} {}_comp && tyOk {} {}_tys {}_vty {}_cert && {}_delivered.all (fun m => {}_comp.contains m || {}_cert.any (fun c => c.1 == m))) = true := by decide +kernel\n", name, name, name, name, name, name, name, name, name, name, name, name).unwrap();
             }
             let _ = covered;
             obligations.push(serde_json::json!({"name": format!("CCV.Generated.C03.{}_ok", name),
